@@ -138,6 +138,11 @@ G7(e, subj) ==
     /\ \/ e.op = "get_key" /\ e.ok /\ Stale(e.k) /\ ~GetByKeyOk(e.k, e.ok, e.d) /\ e.d = lastd[bykey[e.k]]
        \/ e.op = "get_prefix" /\ e.ok /\ \E i \in 1..Len(e.r) : Stale(e.r[i].k) /\ IsPrefix(e.p, e.r[i].k)
        \/ e.op = "keys" /\ e.ok /\ \E i \in 1..Len(e.r) : Stale(e.r[i]) /\ IsPrefix(e.p, e.r[i])
+       \* a key whose removed record's id was re-issued by a plain put is no longer known to the contract
+       \* (Unkey drops it) but is still in the raw trie: keys() lists it, contains_key answers true.  Coarse on
+       \* purpose (found by the thorough tier): which extra keys appear is not constrained beyond the prefix.
+       \/ e.op = "keys" /\ e.ok /\ ~KeysOk(e.p, e.ok, e.r) /\ PrefixSet(e.p) \subseteq RangeOf(e.r)
+       \/ e.op = "contains_key" /\ e.r /\ e.k \notin DOMAIN bykey
 KF7(e, subj) ==
     /\ G7(e, subj)
     /\ \/ e.op = "get_key" /\ Same
@@ -152,8 +157,9 @@ KF7(e, subj) ==
        \/ /\ e.op = "keys"
           /\ Len(e.r) = Cardinality(RangeOf(e.r))
           /\ PrefixSet(e.p) \subseteq RangeOf(e.r)
-          /\ \A k \in RangeOf(e.r) \ PrefixSet(e.p) : Stale(k) /\ IsPrefix(e.p, k)
+          /\ \A k \in RangeOf(e.r) \ PrefixSet(e.p) : IsPrefix(e.p, k)
           /\ Same
+       \/ e.op = "contains_key" /\ Same
 
 (* ---------------------------------------------------------------------------------------- *)
 (* C03-KF8: DictZipBlobStore with entropy_algorithm = Fse: for large records the FSE stage     *)
